@@ -199,7 +199,7 @@ func c08SweepN(tier string) int {
 func init() {
 	register(&Spec{
 		ID: "C08", Level: "exploration", Quick: 2500, Thorough: 250000,
-		Rule: "interleaved histories (6-40 steps) over a growing family of tokens, token builders, block builders and built blocks sharing ancestors: create-block (several builders alive per parent), add to builder A / builder B, build block, append, build a token again from a used builder, seal, serialize, reload, get-block-id with fresh symbols, authorize, print. After EVERY step the fingerprint (String, Code, serialized bytes, revocation ids, block count, root key id, context) of EVERY live token and built block is recomputed and must be unchanged; on creation each token's bytes are decoded independently and must equal what its own callers put in. non-trivial = at least two live objects were re-fingerprinted after a deriving step (distinct by plan hash)",
+		Rule: "interleaved histories (6-40 steps) over a growing family of tokens, token builders, block builders and built blocks sharing ancestors: create-block (several builders alive per parent), add to builder A / builder B, build block, append (to the parent, or offered to another member of the family, where it is refused for overlapping symbols or accepted), build a token again from a used builder, seal, serialize, reload, get-block-id with fresh symbols, authorize, print. After EVERY step the fingerprint (String, Code, serialized bytes, revocation ids, block count, root key id, context) of EVERY live token and built block is recomputed and must be unchanged; on creation each token's bytes are decoded independently and must equal what its own callers put in. non-trivial = at least two live objects were re-fingerprinted after a deriving step (distinct by plan hash)",
 		Gen: func(r *rand.Rand, run int, tier string) *vm.Plan {
 			if run < c08SweepN(tier) {
 				return genC08Directed(r, run)
